@@ -262,6 +262,104 @@ theorem locked_can_finish (threads : List Tid) (hN : threads.Nodup) (hT : ∀ t,
 
 end live
 
+
+/-! ### `t.results`: the traversal returns exactly the per-service results of the supplied function -/
+
+section results
+variable {ρ : Type}
+
+/-- guarded state of the traversal: `t.status` and `t.results` -/
+abbrev RS (ρ : Type) := (Nat → Status) × (Nat → Option ρ)
+
+/-- `done(v, r)`: `t.status[v.key] = vertexVisited; t.results[v.key] = r` -/
+def doneR (v : Nat) (r : ρ) : RS ρ → RS ρ := fun (st, res) => (doneF v st, fun u => if u = v then some r else res u)
+def enterR (v : Nat) : RS ρ → RS ρ := fun (st, res) => (enterF v st, res)
+def readyR (v : Nat) : RS ρ → RS ρ := fun (st, res) => (readyF v st, res)
+
+/-- the sections the goroutines of a walk run: `ready` / `enter` of any vertex by anybody, and `done(v, val v)` — the
+    worker of `v` stores what the supplied function returned for `v` (`val v`; the zero value for a skipped vertex) -/
+def WalkSections (val : Nat → ρ) (prog : Tid → List (RS ρ → RS ρ)) : Prop :=
+  ∀ t, ∀ f ∈ prog t, ∃ v, f = enterR v ∨ f = readyR v ∨ f = doneR v (val v)
+
+/-- **nothing but the function's results, under every interleaving**: in every reachable state an entry of `t.results` is
+    the value the supplied function returned for that very service, the service is marked visited, and some worker has
+    `done` for it in its program (no entry for a service nobody visits) -/
+theorem traversal_results_sound (val : Nat → ρ) {prog : Tid → List (RS ρ → RS ρ)} (hP : WalkSections val prog)
+    {s : St (RS ρ) Tid} (hR : Reach true prog (fun _ => .absent, fun _ => none) s) {v : Nat} {r : ρ}
+    (h : s.mem.2 v = some r) : r = val v ∧ s.mem.1 v = .visited ∧ ∃ t, doneR v (val v) ∈ prog t := by
+  have := locked_preserves (prog := prog)
+    (fun m : RS ρ => ∀ v r, m.2 v = some r → r = val v ∧ m.1 v = .visited ∧ ∃ t, doneR v (val v) ∈ prog t) ?_ ?_ hR
+  · exact this v r h
+  · intro t f hf m hm
+    obtain ⟨st, res⟩ := m
+    obtain ⟨u, rfl | rfl | rfl⟩ := hP t f hf
+    · intro v r hv
+      obtain ⟨h1, h2, h3⟩ := hm v r hv
+      refine ⟨h1, ?_, h3⟩
+      simp only [enterR, enterF] at h2 ⊢
+      split
+      · next habs => simp only [setSt]; split
+                     · next e => subst e; rw [h2] at habs; cases habs
+                     · exact h2
+      · exact h2
+    · exact hm
+    · intro v r hv
+      simp only [doneR, doneF, setSt] at hv ⊢
+      by_cases e : v = u
+      · subst e
+        simp only [if_true] at hv ⊢
+        injection hv with hv
+        exact ⟨hv.symm, trivial, t, hf⟩
+      · simp only [e, if_false] at hv ⊢
+        exact hm v r hv
+  · intro v r hv; cases hv
+
+/-- **every result is there**: when every goroutine is through, each service whose `done` is in somebody's program has
+    its entry, and it is the value the supplied function returned for it — whatever the interleaving (no lost store) -/
+theorem traversal_results_complete (val : Nat → ρ) {prog : Tid → List (RS ρ → RS ρ)} (hP : WalkSections val prog)
+    {s : St (RS ρ) Tid} (hR : Reach true prog (fun _ => .absent, fun _ => none) s) (hq : quiescent s)
+    {t : Tid} {v : Nat} (hd : doneR v (val v) ∈ prog t) : s.mem.2 v = some (val v) ∧ s.mem.1 v = .visited := by
+  have hser := locked_serializable hR
+  have hrest : (serial prog s.hist (fun _ => Status.absent, fun _ => (none : Option ρ))).2 t = [] := by
+    rw [hser]; simp only [restAbs]
+    have := hq t
+    split <;> simp [this]
+  have := serial_establishes (fun m : RS ρ => m.2 v = some (val v) ∧ m.1 v = .visited) prog ?_ t _ hd ?_ s.hist _ hrest
+  · rw [hser] at this; exact this
+  · intro t' f hf m ⟨h1, h2⟩
+    obtain ⟨st, res⟩ := m
+    obtain ⟨u, rfl | rfl | rfl⟩ := hP t' f hf
+    · refine ⟨h1, ?_⟩
+      simp only [enterR, enterF] at h2 ⊢
+      split
+      · next habs => simp only [setSt]; split
+                     · next e => subst e; rw [h2] at habs; cases habs
+                     · exact h2
+      · exact h2
+    · exact ⟨h1, h2⟩
+    · simp only [doneR, doneF, setSt] at h1 h2 ⊢
+      by_cases e : v = u
+      · subst e; simp
+      · simp only [e, if_false]; exact ⟨h1, h2⟩
+  · intro m; obtain ⟨st, res⟩ := m; simp [doneR, doneF, setSt]
+
+/-- the program of the non-vacuity examples: the coordinator enters two vertices, two workers store their results -/
+def exWalk : Fin 3 → List (RS String → RS String) :=
+  fun t => if t = 0 then [enterR 0, enterR 1] else if t = 1 then [doneR 0 "a"] else [doneR 1 "b"]
+
+/-- non-vacuity: the run ends quiescent with both results stored (the second worker finishes first) -/
+example : ((run true (init exWalk (fun _ => Status.absent, fun _ => none))
+    [.lock 0, .read 0, .write 0, .unlock 0, .lock 0, .read 0, .write 0, .unlock 0, .lock 2, .read 2, .write 2,
+     .unlock 2, .lock 1, .read 1, .write 1, .unlock 1]).map fun s =>
+      (s.mem.2 0, s.mem.2 1, s.mem.1 0, s.hist, (s.rest 0).length + (s.rest 1).length + (s.rest 2).length)) =
+    some (some "a", some "b", .visited, [0, 0, 2, 1], 0) := by decide
+
+/-- … and a worker that asks for the mutex while the coordinator holds it is refused -/
+example : (run true (init exWalk (fun _ => Status.absent, fun _ => none)) [.lock 0, .read 0, .lock 2]).isNone = true := by
+  decide
+
+end results
+
 /-- non-vacuity of the bound: the two-load example of `Props/C19Locks.lean` (1 + 2 sections) runs 12 = 4·3 steps -/
 example : exRun.length = 4 * ([false, true].map fun t => (warnProg (exFiles t)).length).sum := by decide
 
